@@ -186,6 +186,13 @@ let check_table acc st ~props ~klass ~(table_json : unit -> json) ~(path : strin
   let esa = Array.of_list es in
   record acc ~key:(Digest.string file ^ klass) ~nontrivial:(Array.length esa >= 2) ~klass (lazy (table_json ()));
   let verify = rbool st in
+  (* the environment override of the madvise option (reader_init_madvise): "0", "1", anything else, or not set -
+     none of them may change what is read *)
+  (match rint st 4 with
+   | 0 -> Unix.putenv "MTBL_READER_MADVISE_RANDOM" "0"; bump acc "madvise_env=0"
+   | 1 -> Unix.putenv "MTBL_READER_MADVISE_RANDOM" "1"; bump acc "madvise_env=1"
+   | 2 -> Unix.putenv "MTBL_READER_MADVISE_RANDOM" "yes"; bump acc "madvise_env=other"
+   | _ -> ());
   let r = c_reader_init path verify (rbool st) in
   if r = 0n then fail acc ~kind:"spec_violation" ~what:(props ^ " reader does not open a well-formed table") (table_json ())
   else begin
